@@ -1580,7 +1580,10 @@ def hdrWriteLen (h : Hdr) : Nat :=
     if h.newFormat then
       1 + (if n < Gen.phwNewOneOctetLimit then 1 else if n < Gen.phwNewTwoOctetLimit then 2 else 5)
     else
-      1 + (if n < Gen.phwOldOneOctetLimit then 1 else if n < Gen.phwOldTwoOctetLimit then 2 else 4)
+      -- (a header made by `from_parts`: its length type is `old_fixed_type n`, and `write_len`
+      --  follows the length type stored in the header octet)
+      (if n < Gen.oftOneOctetLimit then Gen.phwOldType0Len
+       else if n < Gen.oftTwoOctetLimit then Gen.phwOldType1Len else Gen.phwOldType2Len)
   | .part _ => 2
   | .indet => 1
 
